@@ -3,10 +3,16 @@ package main
 // C06: strand, case and un-align transforms.
 
 import (
+	"bytes"
 	"fmt"
 	"math/rand"
+	"os"
+	"os/exec"
+	"path/filepath"
+	"strings"
 
 	"github.com/evolbioinfo/goalign/align"
+	"github.com/evolbioinfo/goalign/io/fasta"
 )
 
 func init() { register("c06", c06) }
@@ -103,12 +109,96 @@ func c06(args []string) error {
 			emit(alpha, names, seqs, "ReverseComplementSequences", "(OpRCNames "+coqStrList(req)+")", func(sb align.SeqBag) (align.SeqBag, error) {
 				return sb, sb.ReverseComplementSequences(req...)
 			})
+			// the same request through the command line: goalign revcomp [--unaligned] name...
+			if bin := os.Getenv("VERIF_GOALIGN_BIN"); bin != "" && len(req) > 0 && alpha == align.NUCLEOTIDS && nseq > 0 && r.Intn(2) == 0 {
+				probe := mkSeqBag(alpha, names, seqs)
+				pn, ps := alignContent(probe)
+				ok := true
+				sameLen := true
+				for k := range ps {
+					if len(ps[k]) == 0 || strings.ContainsAny(ps[k], " \t>\r\n\x00") || strings.ContainsAny(pn[k], " \t>\r\n\x00") || len(pn[k]) == 0 {
+						ok = false
+					}
+					for _, c := range []byte(ps[k]) {
+						if c >= 0x80 {
+							ok = false
+						}
+					}
+					if len(ps[k]) != len(ps[0]) {
+						sameLen = false
+					}
+				}
+				probe.AutoAlphabet()
+				if ok && probe.Alphabet() == align.NUCLEOTIDS {
+					for _, q := range req {
+						if strings.HasPrefix(q, "-") || q == "" {
+							ok = false
+						}
+					}
+				}
+				if ok && probe.Alphabet() == align.NUCLEOTIDS {
+					if tmpd, e := os.MkdirTemp("", "c06cli"); e == nil {
+						inf := filepath.Join(tmpd, "in.fa")
+						var b strings.Builder
+						for k := range pn {
+							fmt.Fprintf(&b, ">%s\n%s\n", pn[k], ps[k])
+						}
+						os.WriteFile(inf, []byte(b.String()), 0644)
+						unal := !sameLen || r.Intn(2) == 0
+						args := []string{"revcomp", "-i", inf}
+						if unal {
+							args = append(args, "--unaligned")
+						}
+						args = append(args, req...)
+						cmd := exec.Command(bin, args...)
+						var stdout bytes.Buffer
+						cmd.Stdout = &stdout
+						runErr := cmd.Run()
+						os.RemoveAll(tmpd)
+						emit(alpha, pn, ps, "cli:revcomp", "(OpRCNames "+coqStrList(req)+")", func(sb align.SeqBag) (align.SeqBag, error) {
+							if runErr != nil {
+								return sb, runErr
+							}
+							out, pe := fasta.NewParser(bytes.NewReader(stdout.Bytes())).ParseUnalign()
+							if pe != nil {
+								return mkSeqBag(alpha, []string{"<unreadable output of goalign " + strings.Join(args, " ") + ">"}, []string{"A"}), nil
+							}
+							return out, nil
+						})
+					}
+				}
+			}
 		case 4:
 			emit(alpha, names, seqs, "ToUpper", "OpUpper", func(sb align.SeqBag) (align.SeqBag, error) { sb.ToUpper(); return sb, nil })
 		case 5:
 			emit(alpha, names, seqs, "ToLower", "OpLower", func(sb align.SeqBag) (align.SeqBag, error) { sb.ToLower(); return sb, nil })
 		case 6:
-			emit(alpha, names, seqs, "Unalign", "OpUnalign", func(sb align.SeqBag) (align.SeqBag, error) { return sb.Unalign(), nil })
+			emit(alpha, names, seqs, "Unalign", "OpUnalign", func(sb align.SeqBag) (align.SeqBag, error) {
+				u := sb.Unalign()
+				// the un-aligned set is a copy: editing it leaves the source alone, and the other way round
+				snap := func(x align.SeqBag) string { n, q := alignContent(x); return fmt.Sprint(n, q) }
+				shared := mkSeqBag(alpha, []string{"<Unalign shares storage with its source>"}, []string{"A"})
+				src0 := snap(sb)
+				v := sb.Unalign()
+				v.ToLower()
+				v.ToUpper()
+				if r.Intn(2) == 0 {
+					v.ReverseComplement()
+				}
+				if snap(sb) != src0 {
+					return shared, nil
+				}
+				u0 := snap(u)
+				sb.ToLower()
+				if snap(u) != u0 {
+					return shared, nil
+				}
+				sb.ToUpper()
+				if snap(u) != u0 {
+					return shared, nil
+				}
+				return u, nil
+			})
 		}
 	}
 	if g.only >= 0 {
